@@ -30,7 +30,7 @@ def flavours(ctx):
 
 def acquire_cas(f, cas):
     """cmpxchg on mutex.state with new == expected+1"""
-    return f.field(cas) == STATE and delta_of(f, cas.ops[2], cas.ops[1]) == 1
+    return f.field(cas) == STATE and delta_of(f, cas.ops[2], cas.ops[1], at=cas) == 1
 
 
 def rule1_acquire(ctx, v):
@@ -56,7 +56,7 @@ def rule1_acquire(ctx, v):
         for c in cmpxchg_sites(f, STATE):
             if c in acq:
                 continue
-            d = delta_of(f, c.ops[2], c.ops[1])
+            d = delta_of(f, c.ops[2], c.ops[1], at=c)
             ctx.ob('C04.1', name + ': non-acquiring CAS keeps lock bit', d is not None and d % 2 == 0,
                    'any other CAS on the state changes it by an even amount (waiter count only)', loc=c.loc,
                    detail='delta=%s' % d)
@@ -180,7 +180,9 @@ def rule3_unlock(ctx, v):
     f = ctx.need_fn(v, 'myth_mutex_unlock_body')
     cass = cmpxchg_sites(f, STATE)
     dec = [c for c in cass if delta_of(f, c.ops[2], c.ops[1]) == -2]
-    rel = [c for c in cass if const_int(c.ops[1]) == 1 and const_int(c.ops[2]) == 0]
+    # releasing without waiters: 1 -> 0, or s -> s-1 / s & ~1 where the lock bit of s was tested set (waiter count unchanged)
+    rel = [c for c in cass if (const_int(c.ops[1]) == 1 and const_int(c.ops[2]) == 0) or
+           (c not in dec and delta_of(f, c.ops[2], c.ops[1], at=c) == -1 and guarded_by_bit(f, c.ops[1], 1, True, c))]
     ctx.ob('C04.3', 'myth_mutex_unlock_body: CAS s->s-2', len(dec) == 1, 'one waiter-decrementing CAS', loc=f.loc)
     ctx.ob('C04.3', 'myth_mutex_unlock_body: CAS 1->0', len(rel) == 1, 'one releasing CAS 1 -> 0', loc=f.loc)
     ctx.ob('C04.3', 'myth_mutex_unlock_body: no other CAS', len(cass) == len(dec) + len(rel),
